@@ -232,6 +232,10 @@ func buildRPMMeta(info *nfpm.Info) (*rpmpack.RPMMetaData, error) {
 		if epoch, err = strconv.ParseUint(info.Epoch, 10, 32); err != nil {
 			return nil, err
 		}
+		if epoch == uint64(rpmpack.NoEpoch) {
+			// rpmpack uses this value for "no epoch" and would write no tag at all
+			return nil, fmt.Errorf("epoch %d is not supported", epoch)
+		}
 	}
 	if provides, err = toRelation(info.Provides); err != nil {
 		return nil, err
